@@ -1839,6 +1839,10 @@ func NewRaw(json string) Node {
 	if err != 0 {
 		return *newError(err, err.Message())
 	}
+	if p := skipBlank(parser.s, parser.p); p >= 0 {
+		parser.p = p
+		return *newSyntaxError(parser.syntaxError(types.ERR_INVALID_CHAR))
+	}
 	it := switchRawType(parser.s[start])
 	if it == _V_NONE {
 		return Node{}
@@ -1854,6 +1858,10 @@ func NewRawConcurrentRead(json string) Node {
 	start, err := parser.skip()
 	if err != 0 {
 		return *newError(err, err.Message())
+	}
+	if p := skipBlank(parser.s, parser.p); p >= 0 {
+		parser.p = p
+		return *newSyntaxError(parser.syntaxError(types.ERR_INVALID_CHAR))
 	}
 	it := switchRawType(parser.s[start])
 	if it == _V_NONE {
